@@ -669,11 +669,24 @@ func c16R5(c *Ctx) {
 		okVal := holdsToken(call.Args[1])
 		if o := identObj(pinfo, call.Args[1]); o != nil && !okVal {
 			// a list variable: its last assignment appends the token
+			keepsAll := true
 			for _, d := range varDefs(put, o) {
 				if d.rhs != nil && holdsToken(d.rhs) {
 					okVal = true
 				}
+				// the list only ever grows: what was cached (a type assertion of the cache's value) plus
+				// appends; a re-slice or any other rewrite would drop tokens that were put back
+				switch t := ast.Unparen(d.rhs).(type) {
+				case *ast.TypeAssertExpr, *ast.CompositeLit:
+				case *ast.CallExpr:
+					if ac, isApp := isBuiltinCall(pinfo, t, "append"); !isApp || len(ac.Args) == 0 || identObj(pinfo, ac.Args[0]) != o {
+						keepsAll = false
+					}
+				default:
+					keepsAll = false
+				}
 			}
+			okVal = okVal && keepsAll
 		}
 		if okKey && okVal {
 			goodAdds++
